@@ -407,6 +407,14 @@ func cmdRepro(args []string) int {
 	if strings.Contains(args[0], "/C13-") {
 		return reproC13(args[0])
 	}
+	if strings.Contains(args[0], "/C14-") && !strings.Contains(args[0], "input_b64") {
+		var probe struct {
+			Kind string `json:"kind"`
+		}
+		if LoadJSONFile(args[0], &probe) == nil && probe.Kind != "" {
+			return reproC14(args[0])
+		}
+	}
 	var rf ReplayFile
 	if err := LoadJSONFile(args[0], &rf); err != nil {
 		fmt.Fprintln(os.Stderr, "repro:", err)
